@@ -66,6 +66,7 @@ let key_len = nat_of_int 256
 
 (* ------------------------------------------------------------------------------------- *)
 let st = ref (Store.init None)
+let saved : (string, Store.state) Hashtbl.t = Hashtbl.create 8
 let cur_view : Base.kv ref = ref []
 let cur_atrie : Emit.atrie ref = ref Emit.AE
 
@@ -172,6 +173,8 @@ let handle (line : string) =
       say (match r with Store.ROk -> "ok" | Store.RErr -> "err")
   | [ "reopen" ] -> st := Store.reopen !st; say "ok"
   | [ "seqn" ] -> say (string_of_int (int_of_n (Store.seqn !st)))
+  | [ "save"; name ] -> Hashtbl.replace saved name !st; say "ok"
+  | [ "load"; name ] -> st := Hashtbl.find saved name; set_view (Store.cur !st); say "ok"
   | [ "histlen" ] -> say (string_of_int (Stdlib.List.length (Store.hist !st)))
   | _ -> (
       match Core_cmds.handle toks with
